@@ -138,6 +138,21 @@ impl ClientConnection {
             (method, path, version, headers)
         };
 
+        // every Content-Length header has to be a plain decimal number that fits, not only the
+        // one the body is framed with: a parser that goes by another one (or by Content-Length
+        // where this one goes by Transfer-Encoding) must not see a different message
+        for h in headers.iter().map(|h: &crate::Header| h) {
+            if h.field.equiv("Content-Length") {
+                let value = h.value.as_str();
+                if value.is_empty()
+                    || !value.bytes().all(|b| b.is_ascii_digit())
+                    || usize::from_str(value).is_err()
+                {
+                    return Err(ReadError::WrongHeader(version));
+                }
+            }
+        }
+
         // building the writer for the request
         let writer = self.sink.next().unwrap();
 
